@@ -122,6 +122,12 @@ def deliver (w : World) (name : String) (len : Nat) : World :=
     (msgLines topic payload qos retain props).foldl World.emit w
   | _ => w.emit "panic decode_inbound_publish"
 
+/-- The QoS a publish is sent with: capped to the broker's Maximum QoS when auto-downgrade is on. -/
+def effectiveQos (maxQos : Option Nat) (downgrade : Bool) (requested : Nat) : Nat :=
+  match maxQos with
+  | some m => if downgrade && requested > m then m else requested
+  | none => requested
+
 /-- Encoding failures of the publish path (`PubError::from`). -/
 def pubErr : PubEncErr → Err
   | .payload => .payload
@@ -214,9 +220,7 @@ def afterFlush : Nat → World → AfterFlush → World
     | .post name op => w.finishOp name op
     | .publishPre r =>
       if !r.props.validFor .Publish then w.finishErr "publish" .invalidRequest else
-      let qos := match w.sess.rt.maxQos with
-        | some m => if w.sess.downgrade && r.qos > m then m else r.qos
-        | none => r.qos
+      let qos := effectiveQos w.sess.rt.maxQos w.sess.downgrade r.qos
       if qos > 0 then
         let (s1, id) := w.sess.alloc
         let w := { w with sess := s1 }
